@@ -140,6 +140,10 @@ def rule_data_kernels(ctx: Ctx, rule: str = "parser-kernel-law") -> None:
             return "a different absolute term is not appended"
         if len(lst.items) != 1:
             return "the input list was modified"
+        # same variable part, different constant inside the bars: a different term
+        r = ta.call(fi, [lst, mk_at(mk_tl("a", [x], sym("other_c")), sym("k"))], {})
+        if len(r.items) != 2:
+            return "|a_x x + a_c| and |a_x x + other_c| are merged although their constants differ"
         return None
 
     _run(ctx, rule, "data._combine_or_append", "equal absolute terms merge (coefficients add), different ones are appended, input list untouched", k_combine_or_append)
@@ -362,3 +366,69 @@ def rule_parse_entry(ctx: Ctx, rule: str = "parse-errors") -> None:
     construct = "polyhedral_termlist_from_string parses the whole string (parse_all=True) with the grammar's `expression`"
     okc = len(calls) == 1 and norm(calls[0].func.value) == "expression" and any(k.arg in ("parse_all", "parseAll") and norm(k.value) == "True" for k in calls[0].keywords)
     (ctx.ok(rule, key, construct) if okc else ctx.violation(rule, key, construct, "call is %s" % (norm(calls[0]) if calls else "missing"), where=fi.where))
+
+
+def rule_infix_chain(ctx: Ctx, rule: str = "constant-arithmetic") -> None:
+    """Constant arithmetic in parentheses: pyparsing's infixNotation hands a LEFT-associative binary level the whole
+    flat chain [a, op, b, op, c, ...]; the level's action must fold every operand (left to right)."""
+    prog = ctx.prog
+    m = prog.module("grammar")
+    # operator literal names:  plus, minus, mult, div = map(pp.Literal, "+-*/")
+    lit: Dict[str, str] = {}
+    for node in ast.walk(m.tree):
+        if isinstance(node, ast.Assign) and isinstance(node.targets[0], ast.Tuple) and isinstance(node.value, ast.Call) and norm(node.value.func) == "map":
+            args = node.value.args
+            if len(args) == 2 and isinstance(args[1], ast.Constant) and isinstance(args[1].value, str):
+                for t, ch in zip(node.targets[0].elts, args[1].value):
+                    if isinstance(t, ast.Name):
+                        lit[t.id] = ch
+        if isinstance(node, ast.Assign) and isinstance(node.targets[0], ast.Name) and isinstance(node.value, ast.Call) and norm(node.value.func).endswith("Literal") and node.value.args and isinstance(node.value.args[0], ast.Constant):
+            lit[node.targets[0].id] = node.value.args[0].value
+    calls = [n for n in ast.walk(m.tree) if isinstance(n, ast.Call) and norm(n.func).split(".")[-1] in ("infixNotation", "infix_notation")]
+    if not calls:
+        ctx.cannot_decide(rule, "grammar", "infixNotation", "no infixNotation call found (constant arithmetic is built differently)")
+        return
+    n = 0
+    for call in calls:
+        if len(call.args) < 2 or not isinstance(call.args[1], (ast.List, ast.Tuple)):
+            continue
+        for spec in call.args[1].elts:
+            if not isinstance(spec, ast.Tuple) or len(spec.elts) < 4:
+                continue
+            ops_e, arity, assoc, action = spec.elts[0], spec.elts[1], spec.elts[2], spec.elts[3]
+            if not (isinstance(arity, ast.Constant) and arity.value == 2 and norm(assoc).endswith("LEFT")):
+                continue
+            ops = [lit[x.id] for x in ast.walk(ops_e) if isinstance(x, ast.Name) and x.id in lit]
+            fi = None
+            if isinstance(action, ast.Lambda):
+                for lf in prog.lambdas:
+                    if lf.node is action:
+                        fi = lf
+            elif isinstance(action, ast.Name) and action.id in m.functions:
+                fi = m.functions[action.id]
+            if fi is None or not ops:
+                ctx.cannot_decide(rule, "grammar", "level %s" % norm(ops_e), "cannot resolve the action or the operator literals")
+                continue
+            for op1 in ops:
+                for op2 in ops:
+                    n += 1
+                    construct = "constant arithmetic: a %s b %s c is folded over all three operands, left to right" % (op1, op2)
+
+                    def thunk(op1=op1, op2=op2, fi=fi):
+                        ta = TermAlg(prog)
+                        a, b, c = sym("a"), sym("b"), sym("c")
+                        chain = ListV([a, ("str", op1), b, ("str", op2), c])
+                        nparams = len(fi.params)
+                        args = [ListV([chain])] if nparams == 1 else [("str", "src"), num(0), ListV([chain])][-nparams:]
+                        r = ta.call(fi, args, {})
+
+                        def ap(o, u, v):
+                            return {"+": u + v, "-": u - v, "*": u * v, "/": u / v}[o]
+
+                        want = ap(op2, ap(op1, a, b), c)
+                        if not isinstance(r, Rat) or not r.equals(want):
+                            return "the action yields %s for the chain a %s b %s c, expected %s" % (r.show() if isinstance(r, Rat) else r, op1, op2, want.show())
+                        return None
+
+                    _run(ctx, rule, fi.key, construct, thunk)
+    ctx.floor("operator chains checked", n, 8)
